@@ -744,5 +744,5 @@ def run_shard(tier, seed, shard, nshards, res):
         for i in range(15 if tier == 'quick' else 200):
             rng = common.rng_for(seed, 'c08c', shard, i)
             concurrent_program(dc, sc, res, rng, 'c08 concurrent seed=%d shard=%d i=%d' % (seed, shard, i))
-            if res.counters.get('violations_raw', 0) > 10:
+            if res.new_violations() > 10:
                 return
